@@ -102,6 +102,8 @@ type stepResult struct {
 	Diffs   []Diff   `json:"diffs,omitempty"`
 	Classes []string `json:"classes,omitempty"` // finding class per diff
 	Trace   string   `json:"trace,omitempty"`   // replay divergence: harness error, not a violation
+	// Diverged: the model and the implementation disagree about the result or the state (successors are not explored)
+	Diverged bool `json:"diverged,omitempty"`
 	// fault enumeration counters
 	FaultRuns   int            `json:"fault_runs,omitempty"`
 	FaultFailed int            `json:"fault_failed,omitempty"` // runs in which the op returned an error
@@ -262,6 +264,7 @@ func RunStep(t *testing.T, j job) (res stepResult) {
 				mr.Ck, mr.CkOpt = nil, nil
 			}
 			res.Diffs = append(res.Diffs, DiffRes(*j.Op, mr, ctx.ImplR)...)
+			res.Diverged = len(res.Diffs) > 0
 		}
 		var idiffs []Diff
 		preKey := ""
@@ -277,6 +280,10 @@ func RunStep(t *testing.T, j job) (res stepResult) {
 		if j.Op != nil {
 			res.Diffs = append(res.Diffs, idiffs...)
 			res.Diffs = append(res.Diffs, DiffObs(m.Observe(spec.Buckets, spec.Keys), ctx.Post)...)
+			// model and implementation disagree about the result or the state reached: successors of
+			// this state would only repeat the disagreement. Diffs of the other oracles (immutability,
+			// no-trace, Extra) are verdicts about this step and do not make the state unusable.
+			res.Diverged = res.Diverged || len(res.Diffs) > 0
 			if spec.Immutability {
 				res.Diffs = append(res.Diffs, immutabilityDiffs(ctx)...)
 			}
@@ -842,6 +849,9 @@ func (s *Search) judge(stack string, st state, op Op, r stepResult) bool {
 		} else {
 			s.Unasserted[cls]++
 		}
+	}
+	if !r.Diverged {
+		return true
 	}
 	s.Pruned++
 	return false
